@@ -44,7 +44,7 @@ def _b(shape, bshape, mark, tiers, rearm=0):
     return _i('b_s%d_b%d_m%d' % (shape, bshape, mark), shape, bshape, tiers, rearm=rearm, mark=mark, timeout=600)
 
 
-_QUICK = [_g(5, 1, ['quick']), _g(5, 2, ['quick']), _g(6, 1, ['quick']), _g(3, 6, ['quick']),
+_QUICK = [_g(5, 1, ['quick']), _g(6, 1, ['quick']), _g(3, 6, ['quick']),
           # BiProp: 0=>1 BiProp, 1->2 plain, node 1 marked: closure {1,2}, set {0,1} joins
           _b(5, 1, 2, ['quick']),
           # BiProp: 1=>2 BiProp, node 2 marked: closure {2}, set {1,2} joins, node 0 stays complete
@@ -61,3 +61,12 @@ _THOROUGH = ([_g(s, m, ['thorough'], rearm=1 if m == 1 else 0) for s in (3, 5, 6
 # literal shape + literal marked subset did not finish within 600 s (see NOTES.md).  Kept here for reference.
 _BIPROP_REFERENCE = [x for x in _QUICK + _THOROUGH if x['name'].startswith('b_')]
 INSTANCES = [x for x in _QUICK + _THOROUGH if not x['name'].startswith('b_')]
+
+# Honest level: no symbolic INPUT survives the time budget for this code (libstdc++ containers, type-erased
+# functors): every instance is the real code symbolically executed by CBMC on ONE literal graph program
+# (shape, and for C31 the marked subset, are literals); the instances enumerate the shapes.  That is
+# exploration of a finite family of concrete programs, not a solver verdict over a symbolic input space.
+CATEGORY = 'exploration'
+LEVEL = ('CBMC symbolic execution of the real graph / executor code on literal 3-node DAG programs, one instance per shape '
+         '(and per marked subset for C31): enumeration of a small finite family, every assertion incl. memory safety decided '
+         'by the solver per program. Weaker than the other checks: no symbolic inputs.')
